@@ -41,7 +41,10 @@ var accepted = map[string][]string{
 	"C17": {"cache", "panic", "hang"},
 	"C18": {"lock", "readonly-mutate", "readonly", "closed", "released", "get", "scan", "hang", "panic"},
 	"C19": {"recover", "scan", "get", "iter", "lsm", "panic", "hang"},
-	"C20": {"get", "scan", "iter", "snapget", "snapiter", "txget", "txiter", "arg-modified", "panic"},
+	// wgroup under C20: a write acknowledged before its records are in the
+	// journal is a batch the DB still references after Write has returned; a
+	// journal record no writer passed in is stored data the callers did not write
+	"C20": {"get", "scan", "iter", "snapget", "snapiter", "txget", "txiter", "arg-modified", "wgroup", "panic"},
 }
 
 func accepts(prop, oracle string) bool {
@@ -83,6 +86,9 @@ func controlCase(c *Case) *Case {
 		}
 		return n
 	case "C20":
+		if c.Scenario == "conc" {
+			return nil // concurrent cases do no scribbling a twin could omit
+		}
 		n := c.Clone()
 		for ci := range n.Clients {
 			for oi := range n.Clients[ci] {
